@@ -799,6 +799,15 @@ class Machine:
         if op["copy"] and model.shares_storage(out, s.idx):
             self.fail("C06", "copy-shares-storage", "reindexed(copy=True)", "result shares row-id storage with its source")
         self.put(op["dst"], out, want)
+        # C15: when values were actually merged and shift=True, the library re-chooses the common value itself
+        # (the library re-chooses only when row-id sets were combined: two entries landing on the same
+        #  coordinate, or an entry landing on the common value - not when values merely meet in different columns)
+        new_keys = [(eff.get(k[0], k[0]),) + tuple(k[1:]) for k in dict.keys(s.idx)]
+        new_common = eff.get(s.idx.common, s.idx.common)
+        really_merged = len(set(new_keys)) < len(new_keys) or any(k[0] == new_common for k in new_keys)
+        if op["shift"] and really_merged and s.a.size:
+            self.stats.count("probe_reindexed_merge_renormalised")
+            self.check_most_frequent(self.slots[min(op["dst"], len(self.slots) - 1)], "reindexed")
 
     def do_collapsed(self, op):
         s = self.slot(op["slot"], mindim=2, maxdim=2)
